@@ -85,7 +85,7 @@ func (g *Generator) extractTopFiels(pkg *packages.Package, st *ast.StructType, t
 			//embedded: gorm.Model
 			typ := pkg.TypesInfo.TypeOf(f.Type)
 			name := typeName(typ)
-			expandIfStruct(pkg, g.qualifier, name, 1, typ, ptrTypeMap, fields)
+			expandIfStruct(pkg, g.qualifier, name, 1, typ, tagMap, ptrTypeMap, fields)
 			continue
 		}
 		//named:
@@ -117,7 +117,7 @@ func (g *Generator) extractTopFiels(pkg *packages.Package, st *ast.StructType, t
 	}
 }
 
-func expandIfStruct(pkg *packages.Package, qf types.Qualifier, pre string, depth int32, t types.Type, ptrTypeMap map[string]string, fields *[]*Field) {
+func expandIfStruct(pkg *packages.Package, qf types.Qualifier, pre string, depth int32, t types.Type, tagMap, ptrTypeMap map[string]string, fields *[]*Field) {
 	switch tt := t.(type) {
 	case *types.Pointer:
 		e := tt.Elem()
@@ -126,18 +126,18 @@ func expandIfStruct(pkg *packages.Package, qf types.Qualifier, pre string, depth
 				ptrTypeMap[pre] = types.TypeString(n, qf)
 			}
 			//todo: embeded struct?
-			extractStructFields(pkg, qf, pre, depth, st, ptrTypeMap, fields)
+			extractStructFields(pkg, qf, pre, depth, st, tagMap, ptrTypeMap, fields)
 		}
 	case *types.Named:
 		if st, ok := tt.Underlying().(*types.Struct); ok {
-			extractStructFields(pkg, qf, pre, depth, st, ptrTypeMap, fields)
+			extractStructFields(pkg, qf, pre, depth, st, tagMap, ptrTypeMap, fields)
 		}
 	case *types.Struct: //todo: embeded struct?
-		extractStructFields(pkg, qf, pre, depth, tt, ptrTypeMap, fields)
+		extractStructFields(pkg, qf, pre, depth, tt, tagMap, ptrTypeMap, fields)
 	}
 }
 
-func extractStructFields(pkg *packages.Package, qf types.Qualifier, pre string, depth int32, st *types.Struct, ptrSet map[string]string, fields *[]*Field) {
+func extractStructFields(pkg *packages.Package, qf types.Qualifier, pre string, depth int32, st *types.Struct, tagMap, ptrSet map[string]string, fields *[]*Field) {
 	for i := 0; i < st.NumFields(); i++ {
 		f := st.Field(i)
 		// if !ast.IsExported(f.Name()) {
@@ -146,8 +146,14 @@ func extractStructFields(pkg *packages.Package, qf types.Qualifier, pre string, 
 
 		if f.Embedded() {
 			name := typeName(f.Type())
-			expandIfStruct(pkg, qf, pre+"."+name, depth+1, f.Type(), ptrSet, fields)
+			expandIfStruct(pkg, qf, pre+"."+name, depth+1, f.Type(), tagMap, ptrSet, fields)
 			continue
+		}
+
+		if tag := getMapTag(st.Tag(i)); tag == "-" {
+			continue
+		} else if tag != "" && tagMap != nil {
+			tagMap[transfer.ToPascalCase(f.Name())] = transfer.ToPascalCase(tag)
 		}
 
 		appendOrReplace(fields, &Field{
